@@ -131,5 +131,6 @@ func (svr *Server) handshakeDataChannel(wsc websocket.Conn) {
 	}
 
 	// 添加到session
+	verifPoint("join.answered", wsc)
 	session.setDataChannel(wsc)
 }
